@@ -100,6 +100,16 @@ theorem notify_names_newest (s s' : Sys) (n : Nat) (obsolete : List Nat)
       simpa using (List.mem_filter.mp hk).2
   · rw [if_neg hin] at h; exact absurd h (by simp)
 
+/-- D13 (repaired): with the old lock section, checkpoint 2 finishing after checkpoint 3 made 2 the current
+checkpoint, scheduled the file of 3 for removal and announced `[2]`; the repaired section keeps 3. -/
+theorem oldLock_counterexample :
+    let p0 : Pub := { files := [2, 3], completed := [3], inflight := [(2, true)], removes := [], notifs := [],
+                      written := [2, 3, 1], delivered := [3] }
+    ((lockUpdateOld p0 2).1.current = some 2 ∧ (lockUpdateOld p0 2).1.removes = [[3]] ∧
+      (lockUpdateOld p0 2).1.notifs = [[2]]) ∧
+    ((lockUpdate p0 2).1.current = some 3 ∧ (lockUpdate p0 2).1.removes = [] ∧ (lockUpdate p0 2).1.notifs = []) := by
+  decide
+
 /-- delivered notifications name strictly increasing ids (across restarts as well) -/
 theorem notifications_increase (files0 : List Nat) (as : List Act) (s : Sys) (obs : List Obs)
     (h : run (init files0) as = some (s, obs)) : s.pub.delivered.Pairwise (· < ·) :=
